@@ -511,6 +511,9 @@ qb_vsnprintf_serialize(char *serialize, size_t max_len,
 			break;
 		}
 		format = p + 1;
+		/* a precision only applies to the conversion it is given for */
+		sformat_length = 0;
+		sformat_precision = QB_FALSE;
 reprocess:
 		switch (format[0]) {
 		case '#': /* alternate form conversion, ignore */
@@ -660,29 +663,33 @@ reprocess:
 			arg_char = (unsigned char)arg_int;
 			memcpy (&serialize[location], &arg_char, sizeof (unsigned char));
 			location += sizeof(unsigned char);
+			format++;
 			break;
 			}
 		case 's':
 			{
 			char *arg_string;
+			size_t arg_len;
 			arg_string = va_arg(ap, char *);
-			if (arg_string == NULL) {
-				location += my_strlcpy(&serialize[location],
-						   "(null)",
-						   QB_MIN(strlen("(null)") + 1,
-							  max_len - location));
-			} else if (sformat_length) {
-				location += my_strlcpy(&serialize[location],
-						   arg_string,
-						   QB_MIN(sformat_length + 1,
-						   (max_len - location)));
-			} else {
-				location += my_strlcpy(&serialize[location],
-						   arg_string,
-						   QB_MIN(strlen(arg_string) + 1,
-							  max_len - location));
+			if (location >= max_len) {
+				/* not even room for the terminator */
+				return max_len;
 			}
+			if (arg_string == NULL) {
+				arg_string = "(null)";
+			}
+			arg_len = strlen(arg_string);
+			if (sformat_length && sformat_length < arg_len) {
+				arg_len = sformat_length;
+			}
+			/* a string that does not fit fills the buffer completely,
+			 * which the caller takes as "too long" */
+			location += my_strlcpy(&serialize[location],
+					   arg_string,
+					   QB_MIN(arg_len + 1,
+						  max_len - location));
 			location++;
+			format++;
 			break;
 			}
 		case 'p':
